@@ -10,6 +10,10 @@ use std::sync::{
     Arc, Mutex,
 };
 
+pub static DUAL: std::sync::atomic::AtomicBool = std::sync::atomic::AtomicBool::new(false);
+pub static COUNT_CALLS: std::sync::atomic::AtomicBool = std::sync::atomic::AtomicBool::new(false);
+pub static F_CALLS: AtomicUsize = AtomicUsize::new(0);
+
 #[derive(Debug)]
 pub struct E(pub u32);
 impl std::fmt::Display for E {
@@ -68,6 +72,11 @@ pub struct World<A: 'static, T: 'static> {
     fmt: fn(&T) -> String,
     mk: fn(&Arc<World<A, T>>, i64) -> A,
     gen: AtomicUsize,
+    /// C13 (two overlapping subscriptions of one operator value): subscription A uses sink 0 / upstreams i, subscription B sink 1 /
+    /// upstreams 100+i; `cur` = the subscription on whose behalf the operator is running, `hstack` = sides of the open handlers
+    dual: bool,
+    cur: AtomicUsize,
+    hstack: Mutex<Vec<usize>>,
 }
 
 impl<A: Send + Sync + 'static, T: Send + Sync + 'static> World<A, T> {
@@ -75,6 +84,37 @@ impl<A: Send + Sync + 'static, T: Send + Sync + 'static> World<A, T> {
         if self.pos.load(Ordering::SeqCst) <= self.script.len() {
             lock(&self.log).push(s);
         }
+    }
+    /// log with the side tag (dual mode): `a:` / `b:`
+    fn logs(&self, side: usize, s: String) {
+        if self.dual {
+            self.log(format!("{}:{}", if side == 0 { "a" } else { "b" }, s));
+        } else {
+            self.log(s);
+        }
+    }
+    fn side_of(mv: &Mv) -> usize {
+        match mv {
+            Mv::S(k) | Mv::U(k, _, _) => (*k >= 1) as usize,
+            Mv::G(i) | Mv::D(i, _, _) => (*i >= 100) as usize,
+            Mv::R => 0,
+        }
+    }
+    fn top_side(&self) -> usize {
+        lock(&self.hstack).last().copied().unwrap_or(0)
+    }
+    /// run `f` on behalf of subscription `side`
+    fn on_behalf<R>(&self, side: usize, f: impl FnOnce() -> R) -> R {
+        let prev = self.cur.swap(side, Ordering::SeqCst);
+        let r = f();
+        self.cur.store(prev, Ordering::SeqCst);
+        r
+    }
+    /// a handler of the environment (probe / talkback / puppet) runs: remember whose it is while the script has control
+    fn in_handler(self: &Arc<Self>, side: usize) {
+        lock(&self.hstack).push(side);
+        self.turn();
+        lock(&self.hstack).pop();
     }
     pub fn err(&self, id: u32) -> Err {
         let mut g = lock(&self.errs);
@@ -100,16 +140,17 @@ impl<A: Send + Sync + 'static, T: Send + Sync + 'static> World<A, T> {
     pub fn turn(self: &Arc<Self>) {
         loop {
             let Some((mv, tok)) = self.next() else { return };
+            let side = if self.dual { Self::side_of(&mv) } else { 0 };
             match mv {
                 Mv::R => {
-                    self.log(tok);
+                    self.logs(self.top_side(), tok);
                     return;
                 },
                 Mv::S(k) => {
                     let op = lock(&self.op).clone().unwrap();
-                    self.log(tok);
-                    op(self, k);
-                    self.log("<".into());
+                    self.logs(side, tok);
+                    self.on_behalf(side, || op(self, k));
+                    self.logs(side, "<".into());
                 },
                 Mv::U(k, kind, n) => {
                     let tb = lock(&self.sink_tb).get(&k).cloned();
@@ -117,13 +158,13 @@ impl<A: Send + Sync + 'static, T: Send + Sync + 'static> World<A, T> {
                         self.log(format!("?notb:{tok}"));
                         return;
                     };
-                    self.log(tok);
-                    match kind {
+                    self.logs(side, tok);
+                    self.on_behalf(side, || match kind {
                         'p' => tb(Message::Pull),
                         't' => tb(Message::Terminate),
                         _ => tb(Message::Error(self.err(n))),
-                    }
-                    self.log("<".into());
+                    });
+                    self.logs(side, "<".into());
                 },
                 Mv::G(i) => {
                     let s = lock(&self.src_sink).get(&i).cloned();
@@ -131,9 +172,9 @@ impl<A: Send + Sync + 'static, T: Send + Sync + 'static> World<A, T> {
                         self.log(format!("?nosink:{tok}"));
                         return;
                     };
-                    self.log(tok);
-                    s(Message::Handshake(self.talkback(i)));
-                    self.log("<".into());
+                    self.logs(side, tok);
+                    self.on_behalf(side, || s(Message::Handshake(self.talkback(i))));
+                    self.logs(side, "<".into());
                 },
                 Mv::D(i, kind, n) => {
                     let s = lock(&self.src_sink).get(&i).cloned();
@@ -141,16 +182,16 @@ impl<A: Send + Sync + 'static, T: Send + Sync + 'static> World<A, T> {
                         self.log(format!("?nosink:{tok}"));
                         return;
                     };
-                    self.log(tok);
-                    match kind {
+                    self.logs(side, tok);
+                    self.on_behalf(side, || match kind {
                         'd' => {
                             let v = (self.mk)(self, n);
                             s(Message::Data(v))
                         },
                         't' => s(Message::Terminate),
                         _ => s(Message::Error(self.err(n as u32))),
-                    }
-                    self.log("<".into());
+                    });
+                    self.logs(side, "<".into());
                 },
             }
         }
@@ -159,17 +200,18 @@ impl<A: Send + Sync + 'static, T: Send + Sync + 'static> World<A, T> {
         let w = self.clone();
         Arc::new(
             (move |m: Message<T, Never>| {
+                let side = (w.dual && k >= 1) as usize;
                 match m {
                     Message::Handshake(tb) => {
                         lock(&w.sink_tb).insert(k, tb);
-                        w.log(format!(">G{k}"));
+                        w.logs(side, format!(">G{k}"));
                     },
-                    Message::Data(d) => w.log(format!(">D{k}d{}", (w.fmt)(&d))),
-                    Message::Terminate => w.log(format!(">D{k}t")),
-                    Message::Error(e) => w.log(format!(">D{k}{}", w.err_id(&e))),
+                    Message::Data(d) => w.logs(side, format!(">D{k}d{}", (w.fmt)(&d))),
+                    Message::Terminate => w.logs(side, format!(">D{k}t")),
+                    Message::Error(e) => w.logs(side, format!(">D{k}{}", w.err_id(&e))),
                     Message::Pull => w.log("?pull-to-sink".into()),
                 }
-                w.turn();
+                w.in_handler(side);
             })
             .into(),
         )
@@ -178,13 +220,14 @@ impl<A: Send + Sync + 'static, T: Send + Sync + 'static> World<A, T> {
         let w = self.clone();
         Arc::new(
             (move |m: Message<Never, A>| {
+                let side = (w.dual && i >= 100) as usize;
                 match m {
-                    Message::Pull => w.log(format!(">U{i}p")),
-                    Message::Terminate => w.log(format!(">U{i}t")),
-                    Message::Error(e) => w.log(format!(">U{i}{}", w.err_id(&e))),
+                    Message::Pull => w.logs(side, format!(">U{i}p")),
+                    Message::Terminate => w.logs(side, format!(">U{i}t")),
+                    Message::Error(e) => w.logs(side, format!(">U{i}{}", w.err_id(&e))),
                     _ => w.log("?bad-to-source".into()),
                 }
-                w.turn();
+                w.in_handler(side);
             })
             .into(),
         )
@@ -195,10 +238,12 @@ impl<A: Send + Sync + 'static, T: Send + Sync + 'static> World<A, T> {
         Arc::new(
             (move |m: Message<Never, A>| {
                 if let Message::Handshake(s) = m {
-                    let i = idx.unwrap_or_else(|| w.gen.fetch_add(1, Ordering::SeqCst));
+                    // dual mode: the subscription on whose behalf the operator is running decides which upstream index this is
+                    let side = if w.dual { w.cur.load(Ordering::SeqCst) } else { 0 };
+                    let i = idx.unwrap_or_else(|| w.gen.fetch_add(1, Ordering::SeqCst)) + 100 * side;
                     lock(&w.src_sink).insert(i, s);
-                    w.log(format!(">S{i}"));
-                    w.turn();
+                    w.logs(side, format!(">S{i}"));
+                    w.in_handler(side);
                 }
             })
             .into(),
@@ -230,6 +275,9 @@ pub fn run<A: Send + Sync + 'static, T: Send + Sync + 'static>(
         fmt,
         mk,
         gen: AtomicUsize::new(gen0),
+        dual: DUAL.load(Ordering::SeqCst),
+        cur: AtomicUsize::new(0),
+        hstack: Mutex::new(vec![]),
     });
     let op = build(&w);
     *lock(&w.op) = Some(op);
@@ -274,8 +322,18 @@ pub fn run_inst(inst: &str, script: &str) -> Option<String> {
         "map" => {
             let k = num(2)?;
             match parts.get(1)? {
-                &"add" => run::<i64, i64>(script, fi, mki, 0, |w| subscribe_to(Arc::new(map(move |x: i64| x + k)(w.puppet(Some(0)))))),
-                &"mul" => run::<i64, i64>(script, fi, mki, 0, |w| subscribe_to(Arc::new(map(move |x: i64| x * k)(w.puppet(Some(0)))))),
+                &"add" => run::<i64, i64>(script, fi, mki, 0, |w| {
+                    subscribe_to(Arc::new(map(move |x: i64| {
+                        F_CALLS.fetch_add(1, Ordering::SeqCst);
+                        x + k
+                    })(w.puppet(Some(0)))))
+                }),
+                &"mul" => run::<i64, i64>(script, fi, mki, 0, |w| {
+                    subscribe_to(Arc::new(map(move |x: i64| {
+                        F_CALLS.fetch_add(1, Ordering::SeqCst);
+                        x * k
+                    })(w.puppet(Some(0)))))
+                }),
                 _ => return None,
             }
         },
@@ -342,8 +400,9 @@ pub fn run_inst(inst: &str, script: &str) -> Option<String> {
             Arc::new(move |w: &W<i64>, _k: usize| {
                 let w2 = w.clone();
                 for_each(move |x: i64| {
-                    w2.log(format!(">F{x}"));
-                    w2.turn();
+                    let side = if w2.dual { w2.cur.load(Ordering::SeqCst) } else { 0 };
+                    w2.logs(side, format!(">F{x}"));
+                    w2.in_handler(side);
                 })(src.clone())
             })
         }),
@@ -362,7 +421,9 @@ pub fn replay_stdin() {
             continue;
         }
         let (inst, script) = (parts[0], parts[1]);
+        F_CALLS.store(0, Ordering::SeqCst);
         let got = if inst == "flatten" { Some(crate::seq::run_flatten(script)) } else { run_inst(inst, script) };
+        let got = got.map(|t| if COUNT_CALLS.load(Ordering::SeqCst) { format!("{t} #f={}", F_CALLS.load(Ordering::SeqCst)) } else { t });
         match got {
             Some(t) => writeln!(out, "{inst} | {script} | {t}").unwrap(),
             None => writeln!(out, "{inst} | {script} | ?unknown-instance").unwrap(),
